@@ -597,6 +597,7 @@ fn sized_scope(rng: &mut Rng, tag: u64, body: usize) -> Option<Sx> {
 }
 
 pub fn gen_c06(tier: &str, rng: &mut Rng, emit: &mut Emit) {
+    gen_sized_templates(tier, rng, emit);
     let n = if tier == "thorough" { 100_000 } else { 3_000 };
     for i in 0..n {
         let depth = 1 + (i % 6) as u32;
@@ -689,6 +690,7 @@ pub fn gen_c07_sites(tier: &str, rng: &mut Rng, emit: &mut Emit) {
             emit.case(40, l(vec![a(62), l(ds)]));
         }
     }
+    gen_sized_templates(tier, rng, emit);
     // field lists: widths (exclusive form) across every width class, and entry counts carrying the list across 63 / 4095
     let mut widths: Vec<u64> = (0..=70).chain(4090..=4100).chain(65_530..=65_540).collect();
     widths.extend((1u64 << 20) - 4..=(1u64 << 20) + 4);
@@ -707,6 +709,41 @@ pub fn gen_c07_sites(tier: &str, rng: &mut Rng, emit: &mut Emit) {
     for n in (0usize..16).chain(680..686) {
         let es: Vec<Sx> = (0..n).map(|i| if i % 3 == 2 { l(vec![a(1), a(rng.val(12))]) } else { l(vec![a(0), bytes(b"FLD1"), a(rng.val(6))]) }).collect();
         emit.case(40, l(vec![a(51), bytes(b"REG0"), a(1), a(0), a(0), l(es)]));
+    }
+}
+
+/// a resource template whose Buffer payload (children + the 2-byte end tag) has exactly `payload` bytes: 9-byte extended
+/// interrupt descriptors fix the residue mod 4, 12-byte Memory32Fixed and 8-byte IO descriptors fill the rest
+fn sized_template(rng: &mut Rng, payload: usize) -> Option<Sx> {
+    if payload < 2 { return None; }
+    let body = payload - 2;
+    for j9 in 0..4usize {
+        if body < 9 * j9 { break; }
+        let rest = body - 9 * j9;
+        if rest % 4 != 0 || rest == 4 { continue; }
+        // rest = 12 a + 8 b
+        let (a12, b8) = match rest % 12 { 0 => (rest / 12, 0), 4 => ((rest - 16) / 12, 2), _ => ((rest - 8) / 12, 1) };
+        let mut ds: Vec<Sx> = Vec::new();
+        for _ in 0..a12 { ds.push(l(vec![a(20), a(rng.below(2)), a(rng.val(32)), a(rng.val(32))])); }
+        for _ in 0..b8 { ds.push(l(vec![a(22), a(rng.val(16)), a(rng.val(16)), a(rng.val(8)), a(rng.val(8))])); }
+        for _ in 0..j9 { ds.push(l(vec![a(23), a(rng.below(2)), a(rng.below(2)), a(rng.below(2)), a(rng.below(2)), a(rng.val(32))])); }
+        // position of the odd-sized descriptors varies
+        if !ds.is_empty() { let k = rng.below(ds.len() as u64) as usize; ds.rotate_left(k); }
+        return Some(l(vec![a(62), l(ds)]));
+    }
+    None
+}
+
+/// every payload size in the neighbourhoods where the template's BufferSize integer (1/2, 255/256, 65535/65536) or its
+/// PkgLength (63/64, 4095/4096, 2^20) changes width
+fn gen_sized_templates(tier: &str, rng: &mut Rng, emit: &mut Emit) {
+    let mut sizes: Vec<usize> = (2..=80).chain(240..=270).chain(4070..=4110).chain(65_520..=65_550).collect();
+    if tier == "thorough" {
+        sizes.extend((1usize << 20) - 16..=(1usize << 20) + 8);
+        sizes.extend((0..300).map(|_| rng.range(2, 200_000) as usize));
+    }
+    for &n in &sizes {
+        if let Some(t) = sized_template(rng, n) { emit.case(40, t); }
     }
 }
 
@@ -734,6 +771,7 @@ pub fn gen_c10(tier: &str, rng: &mut Rng, emit: &mut Emit) {
         let k = i % 41;
         emit.case(40, l(vec![a(62), l((0..k).map(|_| desc_sx(rng)).collect())]));
     }
+    gen_sized_templates(tier, rng, emit);
     // directed total sizes around 63/64, 255/256, 4095/4096, 65535/65536 bytes: templates of 12-byte Memory32Fixed descriptors
     for total in (2usize..8).chain(18..24).chain(338..345).chain(5458..5464) {
         let ds = (0..total).map(|_| l(vec![a(20), a(rng.below(2)), a(rng.val(32)), a(rng.val(32))])).collect();
